@@ -13,12 +13,14 @@ CLAIMED = {
          "Seeded search over corpora rich in order-carrying and random-name constructs; each evaluation starts the same load-and-convert driver as 4-6 real CPython interpreters with distinct PYTHONHASHSEED, random seed or forced draw list and heap-shift seed (ASLR off when permitted) and compares queries, finalised output, load errors, pipeline build errors and error records byte for byte; output is scanned for internal _cond_/_filt_ identifiers, forced draws and object addresses."),
  "C15": ("3/C15", "seeded history search with fault injection against a fresh-world reference (fork of a pristine image)",
          "Seeded search over histories of <=8 operations on shared backends / pipeline objects / class-level pipelines / process caches with injected exceptions at backend method boundaries, pipeline failure items, partial pipeline application, cache-size knobs and flushes; every probe conversion of a freshly loaded rule is compared with the same call in a world without history, and backend class settings are compared with their pristine values after every operation. Sampling, not enumeration: a clean batch is evidence."),
+ "C06": ("3/C06", "seeded history search (load, one pipeline transformation possibly failing half-way, dump, reload, convert) with a self-comparison oracle",
+         "Seeded search over rules, correlation rules with their rules and filtered rules, each after zero or one pipeline transformation of any built-in kind (or a partial application that raises at the j-th detection item): the object is written with to_dict and YAML (key order preserved), loaded again, and both the dict form and the queries of live and reloaded object (pipeline-free backend without shortcuts) must agree, or the dump must fail with a Sigma error."),
  "C08": ("3/C08", "seeded fault-sequence search; accounting oracle against rules converted alone in fresh worlds",
          "Seeded search over collections of 1-8 rules in which any subset fails at any stage and position (pipeline failure items, partial application, post-processing, unresolved placeholder, unbound values, missing detection, unsupported feature, injected errors at conversion hooks, finish_query and finalize_query); the batch result and error records in collecting mode and the raised error in strict mode are accounted for against every rule converted alone in its own fresh world."),
  "C09": ("3/C09", "seeded delivery-order search (all permutations for small sets) over four load paths against a reference model",
          "Seeded search over rule sets with correlation chains; every scheduled (permutation, delivery path) runs in its own fresh world, with the directory enumeration order and the merge bracketing chosen by the simulator; all permutations are walked for sets of <=4 documents (<=5 thorough), sampled beyond. Oracle: reference model of load success, conversion order, per-rule queries and own-query emission computed from the set of documents."),
 }
-PENDING = ["C06"]
+PENDING = []
 NA = {
  "C01": "pure function of (rule document, backend class attributes): no schedule, fault, clock or history for a seeded scheduler to choose; the class-template-swap state facet is exercised under C15",
  "C02": "the condition grammar is a pure function of the condition string; the parse-cache facet (shared tree must be copied) is decided under C15",
